@@ -10,7 +10,7 @@ LEVEL = dict(
               "reads as themselves; every escaped string byte is spelled so that the reader's escape table decodes it back; raw string "
               "bytes are taken verbatim; raw parenthesis nesting ≤ MAX_BRACKET; separators for every variant whose spelling starts "
               "with a regular character; number/reference/hex spellings the reader's grammar accepts; offsets recorded before the "
-              "object is written; stream body = exactly Length bytes on both sides",
+              "object is written; stream body = exactly Length bytes on both sides; the cross-reference sections the writer builds start at the id of their first entry (shared with C03); the tail scan that locates the cross-reference data yields the LAST %%EOF/startxref (R-ORDER last-marker-wins); the escape decision of write_string is order-insensitive; numbers are converted from the whole matched span",
     explanation="Decides: the writer cannot emit a name, literal/hex string, token sequence, reference or stream framing that lopdf's own "
                 "reader tokenises differently, for any byte content; object offsets in the cross-reference data are the positions where "
                 "the objects start. Does not decide: equality of the whole value graph after the cycle, number spelling beyond the "
